@@ -274,7 +274,7 @@ fn main() {
     }
 
     let mut rng = Rng::new(seed);
-    let (n_cfg, n_op, budget, nrandom, zoo_docs) = if thorough { (400, 120, 60000, 60, 60) } else { (36, 12, 4000, 12, 10) };
+    let (n_cfg, n_op, budget, nrandom, zoo_docs) = if thorough { (400, 150, 60000, 60, 60) } else { (40, 24, 5000, 12, 10) };
 
     // corpus first: `<src> <string>` lines
     if let Some(corpus) = zoo_corpus("c03") {
